@@ -208,6 +208,7 @@ func ssautilAllFunctions(e *Engine) map[*ssa.Function]bool {
 
 func (cr *checkRun) extraChecks(verif string) {
 	cr.evalLemmaChecks()
+	cr.boundedStandIns()
 	writers := []string{"io/ioutil.WriteFile", "os.WriteFile", "os.Create", "os.OpenFile", "os.Remove", "os.Rename", "os.Mkdir", "os.Truncate", "os.Chmod", "os.Symlink", "os.Link", "(*os.File).Write"}
 	switch cr.prop {
 	case "C14", "C16", "C17":
@@ -320,4 +321,123 @@ func initOnlyFunctions(e *Engine, pkg *ssa.Package) map[*ssa.Function]bool {
 		}
 	}
 	return out
+}
+
+// boundedStandIns: BOUNDED checks, labelled as such and never counted as proved, for the parts of
+// C07 / C11 that no contract within reach decides (exact reconstruction, inverse correctness), and
+// the executable grid for C12's functional contract. They run the real code through `go test
+// -overlay`; a failure is a violation with a real failing input.
+func (cr *checkRun) boundedStandIns() {
+	run := func(label string, res replayResult) {
+		cr.bounded = append(cr.bounded, label)
+		if res.failed {
+			cr.extraViol = append(cr.extraViol, violation{name: "bounded:" + label, reason: "bounded differential test failed on the real code", detail: res.log, input: true})
+		} else if !res.ran || !strings.Contains(res.log, "GOCV-REPLAY-OK") {
+			cr.undecided = append(cr.undecided, "UNDECIDED bounded:"+label+": the bounded test did not run to completion")
+		}
+	}
+	switch cr.prop {
+	case "C11":
+		run("gf2p16 Matrix: row operations, Times, RowReduceForInverse (M*result == N, zero pivots forced) on random matrices up to 5x6 / 4x4+4x6, 30 trials per shape; Inverse on 1..5 square", cr.replayMatrix())
+	case "C12":
+		run("rsec16 applyMatrixParallelData/ParallelOut/Single vs row-by-column product: input rows {1,2,3,8,9,12} x output rows {1,2,3,5} x lengths {2..1000, 14 values} x goroutines 1..9", cr.replayApplyMatrix())
+	case "C07":
+		run("rsec16 Coder: every erasure pattern of data and parity shards for Cauchy codes (d,p) in {(1,1),(2,2),(3,2),(4,3),(5,3)} and PAR2-Vandermonde codes up to (5,3): nil error => restored shards equal the originals and supplied shards untouched; too few parity => NotEnoughParityShardsError; shard lengths {2,4,18,34}, goroutines {1,3}", cr.replayCoder())
+	}
+}
+
+func (cr *checkRun) replayCoder() replayResult {
+	src := `//go:build verif
+
+package rsec16
+
+import (
+	"fmt"
+	"math/rand"
+	"testing"
+)
+
+func TestGocvBoundedCoder(t *testing.T) {
+	rng := rand.New(rand.NewSource(1))
+	type mk func(d, p, g int) (Coder, error)
+	coders := []struct {
+		name string
+		mk   mk
+	}{{"Cauchy", NewCoderCauchy}, {"PAR2Vandermonde", NewCoderPAR2Vandermonde}}
+	shapes := [][2]int{{1, 1}, {2, 2}, {3, 2}, {4, 3}, {5, 3}}
+	for _, cd := range coders {
+		for _, sh := range shapes {
+			d, p := sh[0], sh[1]
+			for _, n := range []int{2, 4, 18, 34} {
+				for _, g := range []int{1, 3} {
+					c, err := cd.mk(d, p, g)
+					if err != nil {
+						fmt.Printf("GOCV-REPLAY-FAIL %s(%d,%d): constructor error %v\n", cd.name, d, p, err)
+						t.Fail()
+						return
+					}
+					orig := make([][]byte, d)
+					for i := range orig {
+						orig[i] = make([]byte, n)
+						rng.Read(orig[i])
+					}
+					parity := c.GenerateParity(orig)
+					for mask := 0; mask < 1<<uint(d+p); mask++ {
+						data := make([][]byte, d)
+						par := make([][]byte, p)
+						missing, have := 0, 0
+						for i := 0; i < d; i++ {
+							if mask&(1<<uint(i)) == 0 {
+								data[i] = append([]byte{}, orig[i]...)
+							} else {
+								missing++
+							}
+						}
+						for i := 0; i < p; i++ {
+							if mask&(1<<uint(d+i)) == 0 {
+								par[i] = append([]byte{}, parity[i]...)
+								have++
+							}
+						}
+						err := c.ReconstructData(data, par)
+						desc := fmt.Sprintf("%s code %d+%d, shard length %d, goroutines %d, erasure mask %#b", cd.name, d, p, n, g, mask)
+						if missing > have {
+							if _, ok := err.(NotEnoughParityShardsError); !ok {
+								fmt.Printf("GOCV-REPLAY-FAIL %s: %d data shards missing, %d parity available, error is %v, want NotEnoughParityShardsError\n", desc, missing, have, err)
+								t.Fail()
+								return
+							}
+							continue
+						}
+						if err != nil {
+							if cd.name == "Cauchy" {
+								fmt.Printf("GOCV-REPLAY-FAIL %s: Cauchy reconstruction failed: %v\n", desc, err)
+								t.Fail()
+								return
+							}
+							continue // PAR2 matrix may be singular: an error is allowed
+						}
+						for i := 0; i < d; i++ {
+							if string(data[i]) != string(orig[i]) {
+								fmt.Printf("GOCV-REPLAY-FAIL %s: nil error but data shard %d differs from the original\n", desc, i)
+								t.Fail()
+								return
+							}
+						}
+						for i := 0; i < p; i++ {
+							if par[i] != nil && string(par[i]) != string(parity[i]) {
+								fmt.Printf("GOCV-REPLAY-FAIL %s: parity shard %d was modified\n", desc, i)
+								t.Fail()
+								return
+							}
+						}
+					}
+				}
+			}
+		}
+	}
+	fmt.Println("GOCV-REPLAY-OK Coder: every erasure pattern of the bounded family reconstructs exactly or reports the permitted error")
+}
+`
+	return cr.injected("github.com/akalin/gopar/rsec16", "zz_gocv_bounded_coder_test.go", src, "TestGocvBoundedCoder")
 }
